@@ -437,6 +437,8 @@ type worldOpts struct {
 	negTimeout time.Duration
 	respond    bool
 	script     func(addr ma.Multiaddr, p peer.ID, n int) scripted.Script
+	// resolver, when set, replaces the swarm's DNS resolver (names of the case's own zone)
+	resolver network.MultiaddrDNSResolver
 }
 
 // newWorld builds the swarm (and host) inside the current bubble. fail reports setup errors.
@@ -454,8 +456,11 @@ func newWorld(o worldOpts, fail func(string, ...any)) *world {
 		fail("subscribe: %v", err)
 	}
 	w.set = scripted.NewSet(w.sw0, localID.ID, o.script)
-	w.sw, err = swarm.NewSwarm(localID.ID, ps, w.bus,
-		swarm.WithUDPBlackHoleSuccessCounter(nil), swarm.WithIPv6BlackHoleSuccessCounter(nil))
+	sopts := []swarm.Option{swarm.WithUDPBlackHoleSuccessCounter(nil), swarm.WithIPv6BlackHoleSuccessCounter(nil)}
+	if o.resolver != nil {
+		sopts = append(sopts, swarm.WithMultiaddrResolver(o.resolver))
+	}
+	w.sw, err = swarm.NewSwarm(localID.ID, ps, w.bus, sopts...)
 	if err != nil {
 		fail("swarm: %v", err)
 	}
